@@ -240,6 +240,8 @@ class Inliner:
         self.done = []      # (caller qualname, helper qualname, how)
         self.skipped = []
         self.tmp = 0
+        self.caller_ref_names = set()
+        self.relpath = relpath
         ref = ref_functions().get(relpath)
         if ref is None:
             ref = None
@@ -355,7 +357,28 @@ class Inliner:
         body = copy.deepcopy(h.f.body)
         if sub:
             body = [_Subst(sub).visit(x) for x in body]
+        # helper locals that are not locals of the calling function in the reference get a fresh name per inlined instance (two inlined
+        # copies must not share temporaries); locals that the caller already had (statements moved out verbatim) keep their name
+        own = stored - set(h.params)
+        fresh = {n: f'{n}__i{self._instance()}' for n in sorted(own) if n not in self.caller_ref_names}
+        if fresh:
+            class R(ast.NodeTransformer):
+                def visit_Name(self, node):
+                    if node.id in fresh:
+                        node.id = fresh[node.id]
+                    return node
+
+                def visit_ExceptHandler(self, node):
+                    if node.name in fresh:
+                        node.name = fresh[node.name]
+                    self.generic_visit(node)
+                    return node
+            body = [R().visit(x) for x in body]
         return pre, body
+
+    def _instance(self):
+        self.tmp += 1
+        return self.tmp
 
     def gen_body(self, h, call, recv, on_yield, on_yield_from=None):
         """generator helper body with every `yield e` statement replaced by on_yield(e, yield_stmt)"""
@@ -509,6 +532,7 @@ class Inliner:
             return self
         for q, f in list(alpha.functions(self.tree)):
             n0 = len(self.done)
+            self.caller_ref_names = set((alpha.reference().get(self.relpath) or {}).get(q, {}).keys())
             # statement-level inlining first (keeps the helper's temporaries), then expression substitution for what is left
             f.body = self.block(f.body) or [ast.Pass()]
             self.subst_expr_helpers(f)
